@@ -124,7 +124,7 @@ def compare_script(ctx, case, o):
         elif exp.get("opireset") and not exp.get("modelok"):
             ctx.violation(DEF_OPI, what, case, o)
         else:
-            ctx.violation("script:rows:%s:%s" % (d, ptag(P)), what, case, o)
+            ctx.violation("%s:rows:%s:%s" % (case["sys"], d, ptag(P)), what, case, o)
     elif o["ins"] != exp["ins"]:
         ctx.drift.append({"what": "emitted opcodes differ from the model's selection (rows equal)", "calls": case["calls"],
                           "got": o["ins"], "model": exp["ins"]})
@@ -195,9 +195,9 @@ def run(ctx):
     profiles = ["dev"] if q else ["dev", "release"]
     bins = {p: ctx.build("gvh-linew", p) for p in profiles}
     if q:
-        cfg = write_cfg("MCLineWriter_run", 300, 600, 3, 2, [1, 3, 4, 8], ["grid", "script", "files", "mixed"], True)
+        cfg = write_cfg("MCLineWriter_run", 300, 600, 3, 2, [1, 3, 4, 8], ["grid", "script", "files", "mixed", "lines"], True)
     else:
-        cfg = write_cfg("MCLineWriter_run", 300, 600, 4, 3, list(range(1, 13)), ["grid", "script", "files", "mixed"], False)
+        cfg = write_cfg("MCLineWriter_run", 300, 600, 4, 3, list(range(1, 13)), ["grid", "script", "files", "mixed", "lines"], False)
     r = ctx.tlc("MCLineWriter", cfg, timeout=4 * 3600)
     for tag, body in r.prints:
         if tag == "MODELDIFF":
